@@ -40,14 +40,68 @@ Proof. intros Hm Hc. right. by exists pre, m. Qed.
 
 Lemma pool_update s s' a fr rest new :
   Inv_pool s -> stacks s !! a = Some (fr :: rest) -> stacks s' = <[a := new]> (stacks s) ->
-  (isbot (lastf (fr :: rest)) -> isbot (lastf new) /\ (ispool new -> ispool (fr :: rest))) ->
-  (pshape (fr :: rest) -> pshape new) -> Inv_pool s'.
+  (isbot (lastf (fr :: rest)) -> isbot (lastf new) /\ (ispool new <-> ispool (fr :: rest))) ->
+  (pshape (fr :: rest) -> pshape new) -> Inv_pool s' /\ (has_pool s -> has_pool s').
 Proof.
-  intros [I1 I2] Ha Hs Hb Hps. pose proof (I2 _ _ Ha) as Hbot. destruct (Hb Hbot) as [Hb1 Hb2]. split.
+  intros [I1 I2] Ha Hs Hb Hps. pose proof (I2 _ _ Ha) as Hbot. destruct (Hb Hbot) as [Hb1 Hb2]. split; [split|].
   - intros c st Hc Hi. rewrite Hs in Hc. destruct (decide (c = a)) as [->|Hn].
     + rewrite list_lookup_insert in Hc by (by eapply lookup_lt_Some). injection Hc as <-. apply Hps. eapply I1; [exact Ha|by apply Hb2].
     + rewrite list_lookup_insert_ne in Hc by done. by eapply I1.
   - intros c st Hc. rewrite Hs in Hc. destruct (decide (c = a)) as [->|Hn].
     + rewrite list_lookup_insert in Hc by (by eapply lookup_lt_Some). by injection Hc as <-.
     + rewrite list_lookup_insert_ne in Hc by done. by eapply I2.
+  - intros (p & st & Hp & Hi). destruct (decide (p = a)) as [->|Hn].
+    + exists a, new. split; [rewrite Hs, list_lookup_insert; [done|by eapply lookup_lt_Some]|]. rewrite Ha in Hp. injection Hp as <-. by apply Hb2.
+    + exists p, st. split; [by rewrite Hs, list_lookup_insert_ne|done].
+Qed.
+
+Ltac tailvar l := lazymatch l with _ :: ?r => tailvar r | ?r => r end.
+Lemma lastf_chain_app pre rest : rest <> [] -> lastf (pre ++ rest) = lastf rest. Proof. apply last_app_ne. Qed.
+
+Section Pres.
+  Context (T : ftables).
+  Lemma step_pool_inv s a s' : Inv_pool s -> step T s a = Some s' -> Inv_pool s' /\ (has_pool s -> has_pool s').
+  Proof.
+    intros HI Hstep. step_split Hstep Ea Est.
+    all: try discriminate Hstep.
+    all: injection Hstep as <-.
+    all: pop_cont_split.
+    all: pose proof (stacks_lookup _ _ _ Ea) as Hst; rewrite Est in Hst.
+    all: try match goal with k : kont |- _ => destruct k end.
+    all: eapply (pool_update s _ a _ _ _ HI Hst); [solve_stacks| |].
+    (* bottom frame *)
+    all: try (lazymatch goal with |- isbot (lastf ?l) -> _ =>
+              intros Hb; let r := tailvar l in destruct r as [|frz restz];
+              [ cbn in Hb; first [ destruct Hb as [?|[? ?]]; discriminate | cbn; split; [first [by left|right; by eexists]|done] ]
+              | unfold ispool; rewrite ?lastf_chain_app by done; cbn in *; split; done ] end).
+    all: intros Hp; apply pshape_inv in Hp as [[Ez1 Ez2]|[[Hm Ez2]|[Hc Hp']]]; try discriminate; subst.
+    all: try (by left).
+    all: try (apply (pshape_m []); reflexivity).
+    all: try (apply pshape_m; [reflexivity|apply chain_opt_wake]).
+    all: try (match goal with |- pshape (?x :: ?y :: ?r) => apply (pshape_chain [x; y] r); [reflexivity|exact Hp'] end).
+    all: try (match goal with |- pshape (?x :: ?r) => apply (pshape_chain [x] r); [reflexivity|exact Hp'] end).
+    all: try (apply (pshape_chain []); [reflexivity|exact Hp']).
+    all: try (apply pshape_chain; [first [apply chain_opt_wake|apply chain_wake_frames]|exact Hp']).
+  Qed.
+End Pres.
+
+Lemma init_pool scripts npool nev : Inv_pool (init scripts npool nev).
+Proof.
+  assert (H : forall c st, stacks (init scripts npool nev) !! c = Some st -> st = [FPIdle] \/ exists sc, st = [FTop sc]).
+  { intros c st Hc. unfold stacks, init in Hc; cbn in Hc. rewrite list_lookup_fmap in Hc.
+    destruct ((((fun sc => mk_actor [FTop sc]) <$> scripts) ++ replicate npool (mk_actor [FPIdle])) !! c) as [ac|] eqn:E; [|done].
+    cbn in Hc. injection Hc as <-. apply elem_of_list_lookup_2 in E. apply elem_of_app in E as [E|E].
+    - apply elem_of_list_fmap in E as (sc & -> & _). right. by exists sc.
+    - apply elem_of_replicate in E as [-> _]. by left. }
+  split; intros c st Hc; destruct (H c st Hc) as [->|[sc ->]].
+  - by left.
+  - done.
+  - by left.
+  - right. by exists sc.
+Qed.
+Lemma init_has_pool scripts npool nev : npool >= 1 -> has_pool (init scripts npool nev).
+Proof.
+  intros Hn. exists (length scripts), [FPIdle]. split; [|done].
+  unfold stacks, init; cbn. rewrite list_lookup_fmap, lookup_app_r by (by rewrite fmap_length).
+  rewrite fmap_length, Nat.sub_diag. destruct npool; [lia|done].
 Qed.
